@@ -49,7 +49,7 @@ def prepare():
 EDITS = [("set_pts", 3), ("set_weights", 2), ("set_knots", 1.5), ("redefine", 1), ("set_delta", 2), ("set_sample", 2),
          ("insert", 2), ("remove", 1), ("refine", 0.7), ("reverse", 2), ("transpose", 1.5), ("flip", 1),
          ("translate", 1.5), ("rotate", 0.8), ("scale", 1), ("deepcopy", 1.2), ("transform_copy", 0.8), ("set_tessellator", 0.5), ("degree_op", 0.6),
-         ("scribble", 0.6)]
+         ("scribble", 0.6), ("subeval", 0.6)]
 REJECTS = ["bad_delta", "bad_sample", "bad_knots", "bad_point", "bad_insert", "bad_weights"]
 CONT_OPS = [("cadd", 3), ("cdelta", 1), ("csample", 1), ("cread", 3), ("ctess", 1), ("ccopy", 0.8)]
 
@@ -851,6 +851,45 @@ def run(script, ctx):
             # invariant derived = f(primary) is checked by the next read either way
             if lv.warm:
                 lv.edited_warm = True
+
+        elif k == "subeval":
+            # the sampled points of PART of the domain (documented evaluate(start=..., stop=...)): every other view stays what a
+            # fresh object reports - in particular the mesh, which describes the whole surface whatever was sampled last; a full
+            # evaluate() afterwards puts the object back into its ordinary state
+            if lv.undefined or getattr(lv, "unclamped", False):
+                ctx.ops_skipped += 1
+                continue
+            tw = _twin(lv)
+            if tw is None:
+                ctx.ops_skipped += 1
+                continue
+            dm = lv.obj.domain
+            dm = [dm] if lv.nd == 1 else list(dm)
+            kw = {}
+            prm = op.get("param") or [0.25, 0.5, 0.25]
+            for d in range(lv.nd):
+                sfx = "" if lv.nd == 1 else "_" + shapes.SUFFIX[d]
+                lo_, hi_ = dm[d]
+                kw["start" + sfx] = lo_ + (hi_ - lo_) * 0.25 * (op["seed"] % 3)
+                kw["stop" + sfx] = lo_ + (hi_ - lo_) * (0.75 + 0.25 * ((op["seed"] // 3) % 2))
+            lv.obj.evaluate(**kw)
+            ctx.log("subeval", i, sorted(kw.items()))
+            ctx.ops_executed += 1
+            ctx.probe("partial_domain_evaluation")
+            sig_ = dict(kind=lv.kind, rational=lv.rational)
+            for view in ("vertices", "faces", "bbox", "ctrlpts", "evaluate_single"):
+                app, got = get_view(lv.obj, view, [0.5, 0.25, 0.75][:lv.nd])
+                if not app:
+                    continue
+                app2, exp = get_view(tw, view, [0.5, 0.25, 0.75][:lv.nd])
+                _compare(ctx, "step %d, after a partial-domain evaluate(%r) of %s object #%d" % (idx, sorted(kw.items()), lv.kind, i), view, got, exp, sig_)
+            lv.obj.evaluate()
+            ref = _model_evalpts(lv.obj)
+            if ref is not None:
+                ok, why = close([list(q) for q in lv.obj.evalpts], ref, 1e-8)
+                if not ok:
+                    ctx.fail("stale_view", "step %d: a full evaluate() after a partial-domain evaluate() does not give the sampled points of the whole "
+                             "domain: %s" % (idx, why), view="evalpts:model", **sig_)
 
         elif k == "scribble":
             # NOT a library call: the caller goes on using the list it handed to a setter earlier (adjusts a knot, a coordinate,
